@@ -29,6 +29,7 @@ func C12(p *core.Prog, rep *core.Report) {
 	bd4Window(p, rep)
 	ps8Readers(p, rep, "read")
 	eof1(p, rep)
+	chunkTypeProtocol(p, rep)
 	rep.Assumptions = append(rep.Assumptions, "content that passes CRC-32 is trusted by the post-checksum decoders (negative or oversized varint lengths inside a CRC-valid record are not guarded)")
 	rep.NotCovered = append(rep.NotCovered, "'returns the originally written value' (value equality); CRC collisions; panics in post-checksum decoders on crafted CRC-valid content")
 }
